@@ -81,6 +81,9 @@ impl Check for C11 {
         let n = (6 + r.below(16)) * dm;
         let move_rate = *r.pick(&[0u64, 2, 4]);
         let zone_rate = *r.pick(&[0u64, 2, 4]);
+        let unit_clash = r.chance(1, 4);
+        let mut fam_added = false;
+        let mut n_items = 0usize;
         let lang = if r.chance(1, 6) { "tr" } else { "en" };
         let session = r.chance(1, 2);
         let pool = g.name_pool(&mut r, 3);
@@ -89,6 +92,14 @@ impl Check for C11 {
         if session { events.push(Event { actor: 0, op: Op::SessionNew { lang: lang.into() }, clock: ClockScript::Frozen { t } }); }
         for _ in 0..n {
             t = advance(&mut r, t);
+            if unit_clash && r.chance(1, 10) {
+                // a user-defined unit that answers to a zone abbreviation: times in that zone keep their meaning
+                let z = r.pick(&g.zones).0.to_lowercase();
+                if !fam_added { fam_added = true; events.push(Event { actor: ADMIN, op: Op::Admin(AdminOp::AddType { name: "famt".into() }), clock: ClockScript::Frozen { t } }); }
+                n_items += 1;
+                events.push(Event { actor: ADMIN, op: Op::Admin(AdminOp::AddTypeItem(crate::trace::TypeItemSpec { family: "famt".into(), index: n_items, format: format!("{{value}} {}", z), parse: vec![format!("{{NUMBER:value}} {{TEXT:type:{}}}", z)], upgrade: "{value} / 2".into(), downgrade: "{value} * 2".into(), names: vec![z] })), clock: ClockScript::Frozen { t } });
+                continue;
+            }
             if r.below(10) < zone_rate {
                 let tz = match r.below(8) { 0 => "NOPE".to_string(), 1 => "QQQQ".to_string(), 2 | 3 => g.zone(&mut r).0, _ => r.pick(&g.zones).0.clone() };
                 events.push(Event { actor: ADMIN, op: Op::Admin(AdminOp::SetTimezone { tz }), clock: ClockScript::Frozen { t } });
